@@ -306,4 +306,182 @@ def otFullfactFill (levels : List Nat) (boxRow : List Rat) : List Rat :=
   | l :: ls, [] => (if l < 2 then (1 / 2 : Rat) else 0) :: otFullfactFill ls []
   | l :: ls, b :: bs => if l < 2 then (1 / 2 : Rat) :: otFullfactFill ls (b :: bs) else b :: otFullfactFill ls bs
 
+/-! ## 6. The design-space *object* between two DOEs: cached normalisation data, sessions
+
+`DesignSpace` keeps the arrays used by `normalize_vect` / `unnormalize_vect` / `round_vect` in private
+attributes computed by `__update_normalization_vars` and guarded by the flag `__norm_data_is_computed`;
+every edit that can change them resets the flag.  A DOE run on a design space that has already been
+used (an earlier DOE, a normalisation query) and edited since reads this cache.  The C02 model derives
+every view from the list of variables; here the cache is modelled as it exists in the code, and
+`Props/C14` proves that it can never be observed (for every history of edits, queries and DOEs). -/
+
+/-- What `__update_normalization_vars` stores. -/
+structure NormData where
+  /-- `__lower_bounds_array` -/
+  lb : List (Option Rat) := []
+  /-- `__upper_bounds_array` -/
+  ub : List (Option Rat) := []
+  /-- `__norm_inds`, as a mask over the components -/
+  normMask : List Bool := []
+  /-- `__integer_components` (`__no_integer` is "none of them") -/
+  intMask : List Bool := []
+  deriving Repr, DecidableEq
+
+/-- The data computed from the variables as they are now. -/
+def NormData.of (d : DS) : NormData := ⟨d.flatLb, d.flatUb, d.normMask, d.intMask⟩
+
+/-- `unnormalize_vect(u, minus_lb=True)` evaluated on the stored arrays. -/
+def NormData.unnormalize (c : NormData) (u : List Rat) : List Rat :=
+  List.zipWith roundIf c.intMask
+    (zipWith4 (fun n l b ui => unnormComp true n l b ui) c.normMask c.lb c.ub u)
+
+/-- `normalize_vect(x, minus_lb=True)` evaluated on the stored arrays. -/
+def NormData.normalize (c : NormData) (x : List Rat) : List Rat :=
+  zipWith4 (fun n l u xi => normComp true n l u xi) c.normMask c.lb c.ub x
+
+/-- The design-space object: its variables and switch (`ds`), the flag `__norm_data_is_computed`
+    and whatever was stored by the last `__update_normalization_vars` (stale when the flag is off). -/
+structure CDS where
+  ds : DS
+  computed : Bool := false
+  data : NormData := {}
+  deriving Repr, DecidableEq
+
+/-- `if not self.__norm_data_is_computed: self.__update_normalization_vars()`. -/
+def CDS.ensure (c : CDS) : CDS :=
+  if c.computed then c else { c with computed := true, data := NormData.of c.ds }
+
+/-- Setter of `enable_integer_variables_normalization`: nothing happens when the value is unchanged,
+    otherwise the normalisation policies are updated and the flag is reset. -/
+def CDS.setIntNorm (c : CDS) (b : Bool) : CDS :=
+  if b != c.ds.intNorm then { c with ds := c.ds.setIntNorm b, computed := false } else c
+
+/-- The edits whose code contains `self.__norm_data_is_computed = False` (`add_variable`,
+    `remove_variable`, `filter_dimensions`, `set_lower_bound`, `set_upper_bound`; `extend` and `filter`
+    through `add_variable` / `remove_variable`, i.e. only when a variable is really added / removed).
+    `rename_variable`, `set_current_value`, `set_current_variable` and
+    `initialize_missing_current_values` leave the flag alone. -/
+def invalidates (d : DS) : Op → Bool
+  | .add _ => true
+  | .remove _ => true
+  | .filterDim _ _ => true
+  | .setLb _ _ => true
+  | .setUb _ _ => true
+  | .extend vs => !vs.isEmpty
+  | .filter keep => d.vars.any (fun v => !keep.contains v.name)
+  | .intNorm b => b != d.intNorm
+  | _ => false
+
+/-- One public edit of the design-space object. -/
+def CDS.edit (tol : Rat) (c : CDS) (op : Op) : CDS :=
+  { ds := c.ds.apply tol op, computed := c.computed && !invalidates c.ds op, data := c.data }
+
+/-- `_generate_unit_samples` on the object (CustomDOE calls `transform_vect`, which fills the cache). -/
+def generateC (c : CDS) (lib : Lib) (r : Req) : CDS × Lib × Except Fail Matrix :=
+  let (lib1, eff) :=
+    if r.usesSeed then
+      let (s', k) := lib.seeder.getSeed r.seed
+      ({ lib with seeder := s' }, k)
+    else (lib, 0)
+  match r.sampler eff with
+  | none => (c, lib1, .error .sampler)
+  | some m =>
+    if r.custom then
+      if m.all (fun row => row.length == c.ds.dimension) then
+        (c.ensure, lib1, .ok (m.map c.ensure.data.normalize))
+      else (c, lib1, .error .dimension)
+    else (c, lib1, .ok m)
+
+/-- The `try` block of `compute_doe` on the object: `untransform_vect` reads the stored arrays. -/
+def computeBodyC (c1 : CDS) (lib : Lib) (r : Req) : CDS × Lib × Except Fail Matrix :=
+  if !r.unitSampling && r.useUnitHypercube && !(unboundedComponents c1.ds).isEmpty then
+    (c1, lib, .error .unbounded)
+  else if !r.settingsOk then (c1, lib, .error .settings)
+  else
+    match generateC c1 lib r with
+    | (c2, lib1, .error e) => (c2, lib1, .error e)
+    | (c2, lib1, .ok us) =>
+      if r.unitSampling then (c2, lib1, .ok us)
+      else (c2.ensure, lib1, .ok (us.map c2.ensure.data.unnormalize))
+
+/-- `compute_doe` on the design-space object. -/
+def computeDoeC (c : CDS) (lib : Lib) (r : Req) : CDS × Lib × Except Fail Matrix :=
+  let enabled := !r.unitSampling && !c.ds.intNorm
+  let c1 := if enabled then c.setIntNorm true else c
+  let out := computeBodyC c1 lib r
+  (if enabled then out.1.setIntNorm false else out.1, out.2.1, out.2.2)
+
+/-- The `try` block of `_pre_run` on the object. -/
+def preRunBodyC (c1 : CDS) (lib : Lib) (r : Req) : CDS × Lib × Except Fail Matrix :=
+  if r.useUnitHypercube && !(unboundedComponents c1.ds).isEmpty then (c1, lib, .error .unbounded)
+  else
+    match generateC c1 lib r with
+    | (c2, lib1, .error e) => (c2, lib1, .error e)
+    | (c2, lib1, .ok us) =>
+      (c2.ensure, { lib1 with unitSamples := us, samples := us.map c2.ensure.data.unnormalize },
+       .ok (us.map c2.ensure.data.unnormalize))
+
+/-- `_pre_run` of `execute` on the design-space object. -/
+def preRunC (c : CDS) (lib : Lib) (r : Req) : CDS × Lib × Except Fail Matrix :=
+  let enabled := !c.ds.intNorm
+  let c1 := if enabled then c.setIntNorm true else c
+  let out := preRunBodyC c1 lib r
+  (if enabled then out.1.setIntNorm false else out.1, out.2.1, out.2.2)
+
+/-- What a user does with one design-space object and one library object. -/
+inductive SOp where
+  /-- a public edit of the design space -/
+  | edit (op : Op)
+  /-- `design_space.unnormalize_vect(u)` (any normalisation query fills the cache the same way) -/
+  | query (u : List Rat)
+  /-- `library.compute_doe(design_space, …)` (`exec = false`) or `library.execute(problem, …)` -/
+  | doe (exec : Bool) (r : Req)
+  /-- a new library object (`DOELibraryFactory().create(…)`) -/
+  | newLib
+
+inductive SOut where
+  | none
+  | vec (x : List Rat)
+  | doe (res : Except Fail Matrix)
+
+/-- The objects of a session, as they exist in the code … -/
+structure Session where
+  cds : CDS
+  lib : Lib := {}
+
+def Session.step (tol : Rat) (s : Session) : SOp → Session × SOut
+  | .edit op => ({ s with cds := s.cds.edit tol op }, .none)
+  | .query u => ({ s with cds := s.cds.ensure }, .vec (s.cds.ensure.data.unnormalize u))
+  | .doe exec r =>
+    let out := if exec then preRunC s.cds s.lib r else computeDoeC s.cds s.lib r
+    ({ cds := out.1, lib := out.2.1 }, .doe out.2.2)
+  | .newLib => ({ s with lib := {} }, .none)
+
+def Session.run (tol : Rat) (s : Session) : List SOp → Session × List SOut
+  | [] => (s, [])
+  | op :: ops =>
+    let (s1, o) := s.step tol op
+    let (s2, os) := Session.run tol s1 ops
+    (s2, o :: os)
+
+/-- … and their specification: no cache, every call is a function of the variables as they are now. -/
+structure Spec where
+  ds : DS
+  lib : Lib := {}
+
+def Spec.step (tol : Rat) (s : Spec) : SOp → Spec × SOut
+  | .edit op => ({ s with ds := s.ds.apply tol op }, .none)
+  | .query u => (s, .vec (s.ds.unnormalizeVect true u))
+  | .doe exec r =>
+    let o := if exec then preRun s.ds s.lib r else computeDoe s.ds s.lib r
+    ({ ds := o.ds, lib := o.lib }, .doe o.result)
+  | .newLib => ({ s with lib := {} }, .none)
+
+def Spec.run (tol : Rat) (s : Spec) : List SOp → Spec × List SOut
+  | [] => (s, [])
+  | op :: ops =>
+    let (s1, o) := s.step tol op
+    let (s2, os) := Spec.run tol s1 ops
+    (s2, o :: os)
+
 end GV.C14
